@@ -14,6 +14,16 @@ import bounds_cases as bc
 
 REPO_DIR = os.path.realpath(REPO)
 
+# which functions a known cause can surface in (a report elsewhere is never matched to it)
+PRED = {
+    "fp-zerobin-outside-grid": {"FokkerPlanckMap": "fp-zerobin-outside-grid"},
+    "pad-overflow": {"padBunchProfiles": "pad-overflow", "wakePotential": "pad-overflow"},
+    "track-outside-grid": {"appendTracks": "track-outside-grid"},
+    "startfile-size-mismatch": {k: "startfile-size-mismatch" for k in
+                                ("main", "FokkerPlanckMap", "KickMap", "PhaseSpace", "SourceMap", "HDF5File", "ElectricField", "assert")},
+}
+TRACK_EDGE = "6 6\n-6 -6\n6 -6\n0 0\n5.9 5.9\n"
+
 
 # ---------------------------------------------------------------------------------- helpers
 
@@ -86,6 +96,22 @@ def api_correspondence(ctx, tg, tga):
                                   bc.main_sizes_double(n, nbk, sp / n + 0.01, 1.0, True)[2]]))
         pads.append(("p%d" % i, n, buckets, nmax, sp))
     pads.append(("pwrap", 8, [3, 0], 64, 2 ** 31))     # uint32 product wraps: 3*2^31 mod 2^32 = 2^31
+    # what main can hand to the field: sizes derived from (n, pattern, spacing_ps, RoundPadding), buckets not overlapping
+    dpads = []
+    for i in range(30 if quick else 400):
+        n = rng.randint(4, 40)
+        nbk = rng.randint(2, 9 if rng.random() < 0.8 else 40)
+        filled = [rng.random() < 0.8 for _ in range(nbk)]
+        filled[0] = filled[0] or rng.random() < 0.7
+        if not any(filled):
+            filled[-1] = True
+        buckets = [nbk - 1 - j for j, f in enumerate(filled) if f]
+        s = n + rng.choice([0, 0.25, 0.5, 0.5625, 0.75, 1.0, 1.5, rng.randint(0, 8 * nbk) / 16.0, rng.uniform(0, n)])
+        sps = s / n
+        rp = rng.random() < 0.4
+        sp, padded, spaced, nmax = bc.main_sizes_double(n, nbk, sps, 1.0, rp)
+        dpads.append(("d%d" % i, n, buckets, nmax, sp))
+    pads += dpads
     for (cid, n, buckets, nmax, sp) in pads:
         mtext.append("pad %s %d %d %d %d 0 %s\n" % (cid, n, len(buckets), nmax, sp, " ".join(map(str, buckets))))
     # --- Fokker-Planck constructor
@@ -112,11 +138,11 @@ def api_correspondence(ctx, tg, tga):
             if c < 0.4:
                 offs.append(f32(rng.uniform(-n / 2, n / 2)))
             elif c < 0.6:
-                offs.append(f32(rng.uniform(-n / 2 - 0.99, -n / 2 + 1)))
+                offs.append(f32(rng.uniform(-3 * n, -n / 2 + 1)))
             elif c < 0.8:
                 offs.append(f32(rng.uniform(n / 2 - 2, 3 * n)))
             else:
-                offs.append(f32(rng.choice([1e6, 3e9, 4.2e9, 1e12, 2.0 ** 31, 2.0 ** 32 - 300])))
+                offs.append(f32(rng.choice([1e6, 3e9, 4.2e9, 1e12, 2.0 ** 31, 2.0 ** 32 - 300, -1e6, -5e9, -1e30])))
         kicks.append(("k%d" % i, rng.choice("xy"), n, nb, it, offs))
     for (cid, d, n, nb, it, offs) in kicks:
         mtext.append("kick %s %d %d %d %s\n" % (cid, n, nb, it, " ".join(qtok(Fraction(o)) for o in offs)))
@@ -142,10 +168,8 @@ def api_correspondence(ctx, tg, tga):
         itext.append("fp %s %d %d %s %s %d %d\n" % (cid, n, dt, fhex(float(pmin)), fhex(float(pmax)), fpt, 1 if (ok and allok) else 0))
     kick_defined = {}
     for (cid, d, n, nb, it, offs) in kicks:
-        tab = model[cid]["table"][0]
-        kick_defined[cid] = all(t != "-1" for t in tab)
-        if kick_defined[cid]:
-            itext.append("kick %s %s %d %d %d %s\n" % (cid, d, n, nb, it, " ".join(fhex(o) for o in offs)))
+        kick_defined[cid] = True        # since fix 49f6ba4 every offset is handled without a conversion outside its domain
+        itext.append("kick %s %s %d %d %d %s\n" % (cid, d, n, nb, it, " ".join(fhex(o) for o in offs)))
     rc, out, err = run_driver(tg["impl_bounds"], "".join(itext), env=vp_build.xdg_env())
     if rc != 0:
         raise RuntimeError("impl_bounds (std): rc=%d %s" % (rc, err[-600:]))
@@ -229,7 +253,7 @@ def api_correspondence(ctx, tg, tga):
 
     # ---------------- the same objects at their extremes under ASan+UBSan, one process per case
     jobs = []
-    for (cid, n, buckets, nmax, sp) in pads[: (24 if quick else 300)] + [pads[-1]]:
+    for (cid, n, buckets, nmax, sp) in dpads:
         ok = model[cid]["ok"][0][0] == "1"
         txt = "pad %s %d %d %d %d 1 %s\n" % (cid, n, len(buckets), nmax, sp, " ".join(map(str, buckets)))
         jobs.append((txt, ok, {"padBunchProfiles": "pad-overflow", "wakePotential": "pad-overflow"},
@@ -243,10 +267,11 @@ def api_correspondence(ctx, tg, tga):
         txt = "kick %s %s %d %d %d %s\n" % (cid, d, n, nb, it, " ".join(fhex(o) for o in offs))
         jobs.append((txt, kick_defined[cid], {"KickMap::updateSM": "kick-negative-offset-conversion"},
                      dict(kind="kick", n=n, nb=nb, it=it, dir=d, offs=[fhex(o) for o in offs])))
-    for x, ok in [(11.5, True), (12.0, False), (-1.0, False), (-0.5, True), (4.3e9, False)]:
-        jobs.append(("track tx 12 1 %s\n" % fhex(x), ok, {"PhaseSpace::q": "track-outside-grid", "do_track": "track-outside-grid"},
+    for x, ok in [(11.5, True), (11.999, True), (-0.5, True), (0.0, True)]:      # the lookup is only ever given what the maps produce
+        jobs.append(("track tx 12 1 %s\n" % fhex(x), ok, {"Ruler": "track-outside-grid", "impl_bounds": "track-outside-grid"},
                      dict(kind="track", n=12, x=fhex(x))))
     jobs.append(("imp ix 256 10\n", True, {}, dict(kind="imp", lhs=256, rhs=10)))
+    jobs.append(("kick kinf y 4 1 4 inf -inf nan 1e38\n", True, {}, dict(kind="kick", n=4, nb=1, it=4, dir="y", offs=["inf", "-inf", "nan", "1e38"])))
 
     def runjob(j):
         return bc.run_proc([tga["impl_bounds"]], text=j[0], env=env, timeout=60)
@@ -283,6 +308,10 @@ def gen_config(rng, i, quick):
     if multi and rng.random() < 0.7:
         target = n + rng.choice([0.0, 0.25, 0.5, 0.6, 1.0, 1.4, 2.0, rng.uniform(0, len(cur))])
         bc.tune_spacing(cfg, target)
+    elif multi and quick:
+        # untuned physics gives ~55 phase-space widths per bucket: tens of thousands of padded cells; FFTW_PATIENT planning of
+        # such a length that is not a power of two costs minutes on a cold wisdom cache (cost control, quick tier only)
+        cfg["RoundPadding"] = 1
     cfg["InterpolationPoints"] = rng.randint(1, 4)
     cfg["InterpolateClamped"] = rng.choice([0, 0, 1])
     cfg["derivation"] = rng.choice([3, 4])
@@ -356,9 +385,10 @@ def program_runs(ctx, tg, tga):
         bc.tune_spacing(w2, 33.0)
         w3 = dict(GridSize=32, PhaseSpaceShiftY=20.0, StepsPerTs=100, rotations=0.02, outstep=1, _out=False, _track=False)
         w4 = dict(GridSize=32, StepsPerTs=3, rotations=1.0, outstep=1, _out=False, _track=False)
-        w5 = dict(GridSize=16, BunchCurrent=[1e-3] * 31, padding=1.0, RoundPadding=1, StepsPerTs=100, rotations=0.02, outstep=1, _out=True, _track=False)
+        w5 = dict(GridSize=16, BunchCurrent=[1e-3] * 31, padding=2.0, RoundPadding=1, StepsPerTs=100, rotations=0.02, outstep=1, _out=False, _track=False)
         bc.tune_spacing(w5, 16.5001)
-        cfgs = [w1, w2, w3, w4, w5] + cfgs
+        w6 = dict(GridSize=32, StepsPerTs=100, rotations=1.0, outstep=1, FPTrack=3, DampingTime=1e-6, _out=True, _track=True, _trackfile=TRACK_EDGE)
+        cfgs = [w1, w2, w3, w4, w5, w6] + cfgs
         mtext = []
         for i, cfg in enumerate(cfgs):
             n = cfg["GridSize"]
@@ -396,7 +426,10 @@ def program_runs(ctx, tg, tga):
                 args += ["-o", out]
             if cfg.get("_track"):
                 tf = os.path.join(work, "t%d.txt" % i)
-                write_tracking(tf, cfg, rng)
+                if cfg.get("_trackfile"):
+                    open(tf, "w").write(cfg["_trackfile"])
+                else:
+                    write_tracking(tf, cfg, rng)
                 args += ["--tracking", tf]
             wake = cfg.get("VacuumGap", 0.03) != 0
             m_pad = model2["p%d" % i]["ok"][0][0] if ("p%d" % i) in model2 and wake else None
@@ -408,7 +441,7 @@ def program_runs(ctx, tg, tga):
         res = bc.pmap(runjob, jobs)
         for (i, cfg, args, out, pred, m_pad, m_fp), (rc, so, err) in zip(jobs, res):
             pub = {k: v for k, v in cfg.items() if not k.startswith("_")}
-            case = dict(kind="program", args=args, config=pub, model=dict(sizes=cfg["_model_sizes"], pad_ok=m_pad, fp_ok=m_fp, zerobin=cfg["_zb"], spacing_ps=cfg["_sps"]))
+            case = dict(kind="program", args=args, config=pub, tracking_file=cfg.get("_trackfile"), model=dict(sizes=cfg["_model_sizes"], pad_ok=m_pad, fp_ok=m_fp, zerobin=cfg["_zb"], spacing_ps=cfg["_sps"]))
             clean = classify(ctx, rc, err, pred, case, "inovesa under ASan/UBSan")
             ctx.count("program:%s" % ("clean" if clean else "report"))
             nontriv = len(cfg.get("BunchCurrent", [1])) > 1 or abs(cfg.get("PhaseSpaceShiftY", 0)) > 1 or cfg.get("StepsPerTs", 1000) < 10
@@ -462,7 +495,7 @@ def malformed_files(ctx, tg, tga, work, env):
         p = mk(name, text)
         for ft in (0, 1, 2, 3):
             a = base + ["--tracking", p, "--FPTrack", str(ft), "-o", os.path.join(work, "%s-%d.h5" % (name, ft))]
-            jobs.append((dict(kind="program", file=name, contents=text, args=a), a, {"appendTracks": "track-outside-grid", "FokkerPlanckMap::applyTo": "track-outside-grid"}))
+            jobs.append((dict(kind="program", file=name, contents=text, args=a), a, PRED["track-outside-grid"]))
     for name, text in [("s_empty.txt", ""), ("s_one.txt", "0.1 0.2\n"), ("s_far.txt", "1e9 1e9\n-1e9 3\n"), ("s_junk.txt", "x y z\n"),
                        ("s_grid.txt", "".join("%r " % (i * 0.01) for i in range(64 * 64)) + "\n"), ("s_nan.txt", "nan nan\n")]:
         p = mk(name, text)
@@ -473,9 +506,7 @@ def malformed_files(ctx, tg, tga, work, env):
         rc, so, err = bc.run_proc([tg["inovesa"], "--run_anyway", "1", "--gui", "0", "--GridSize", str(sz), "--StepsPerTs", "100", "--rotations", "0.02",
                                    "--outstep", "1", "--SavePhaseSpace", "1", "-o", p], env=vp_build.xdg_env(), timeout=60, cwd=work)
         if os.path.exists(p):
-            pred = {} if sz == 32 else {"main": "startfile-size-mismatch", "FokkerPlanckMap": "startfile-size-mismatch", "KickMap": "startfile-size-mismatch",
-                                        "PhaseSpace": "startfile-size-mismatch", "SourceMap": "startfile-size-mismatch", "HDF5File": "startfile-size-mismatch",
-                                        "ElectricField": "startfile-size-mismatch", "assert": "startfile-size-mismatch"}
+            pred = {} if sz == 32 else PRED["startfile-size-mismatch"]
             a = base + ["-i", p, "-o", os.path.join(work, "cont%d.h5" % sz)]
             jobs.append((dict(kind="program", file="start%d.h5 (a results file of GridSize %d used with --GridSize 32)" % (sz, sz), args=a), a, pred))
     p = os.path.join(work, "trunc.h5")
@@ -572,9 +603,7 @@ def replay(ctx, rp):
     tga = ctx.build("asan", harness=("impl_bounds",), want_binary=True)
     tg = ctx.build(harness=("impl_bounds", "h5cat"), want_binary=True)
     env = bc.san_env()
-    pred = {}
-    if sig.get("cause") and sig.get("where"):
-        pred = {sig["where"].split("::")[-1]: sig["cause"]}
+    pred = PRED.get(sig.get("cause"), {})
     kind = case.get("kind")
     work = tempfile.mkdtemp(prefix="c17r-")
     try:
